@@ -70,6 +70,7 @@ func TestC04(t *testing.T) {
 	opts := c01Opts()
 	opts.MaxDests = 3
 	opts.MaxRecords = 18
+	opts.AckSendFaults = 30
 	rapid.Check(t, func(t *rapid.T) {
 		c := lab.GenCase(t, opts)
 		res, m, h := runLab(t, "C04", c)
